@@ -64,9 +64,9 @@ Example C04_contract_is_met_by_tanks : contract (nb * nb) nbport.
 Proof. exact tank_contract. Qed.
 Print Assumptions C04_contract_is_met_by_tanks.
 
-(* REFUTED parts (known findings) *)
-Example C04_refuted_tiny_push :
+(* a push below FLOAT_ACCURACY is handed back whole: nothing recorded, nothing lost *)
+Example C04_tiny_push_handed_back :
   let q := q_init (10#1) 1 [] in let s := (w_idle, w_rejecting) in
-  q_send_push _ nbport q s w_tiny false 0 = (q, s, vzero) /\ get (adds w_tiny) 0 == 1.
-Proof. exact C02_refuted_tiny_push_dropped. Qed.
-Print Assumptions C04_refuted_tiny_push.
+  q_send_push _ nbport q s w_tiny false 0 = (q, s, w_tiny).
+Proof. exact tiny_push_is_handed_back. Qed.
+Print Assumptions C04_tiny_push_handed_back.
